@@ -491,13 +491,23 @@ func (it *strIter) next(in *Interp) tuple {
 		return r
 	}
 	if !b0.IsConst() {
-		// symbolic byte: fork on ASCII vs not
+		// symbolic byte: ASCII fast path, otherwise run the real UTF-8 decoder on the rest
 		if in.branch(in.tt.ULt(b0, in.tt.Const(8, 0x80)), "rune-ascii") {
 			r := tuple{in.tt.True, in.tt.Const(64, uint64(it.i)), in.tt.ZExt(b0, 32)}
 			it.i++
 			return r
 		}
-		in.unsupported("range over string with symbolic non-ASCII byte")
+	}
+	if _, allConc := concStr(strV{it.s.b[it.i:min(it.i+4, len(it.s.b))]}); !allConc {
+		up := in.prog.ImportedPackage("unicode/utf8")
+		if up == nil || up.Func("DecodeRuneInString") == nil {
+			in.unsupported("range over string with symbolic non-ASCII byte (utf8 package not loaded)")
+		}
+		res := in.callSSA(nil, 0, up.Func("DecodeRuneInString"), []value{strV{it.s.b[it.i:]}}, nil).(tuple)
+		sz := in.concretize(res[1].(*Term), "rune-size", 8)
+		r := tuple{in.tt.True, in.tt.Const(64, uint64(it.i)), res[0]}
+		it.i += int(sz)
+		return r
 	}
 	rest, ok := concStr(strV{it.s.b[it.i:]})
 	if !ok {
